@@ -167,7 +167,7 @@ P("C09", module="AJ.Props.C09All", extra=[("AJ.Props.C09Gen", ["C09"]), ("AJ.Pro
                        S.MpDocSuite(cfg=DEF, n=600 if tier == "quick" else 60000), S.MpDocSuite(cfg=G["len1"], n=400 if tier == "quick" else 40000)],
   partial=["value of non-minimal encodings as a theorem"])
 
-P("C10", module="AJ.Props.C10All", extra=[("AJ.Props.C10", ["C10"]), ("AJ.Props.C10Class", ["C10"]), ("AJ.Props.C01Doc", ["C10"]), ("AJ.Props.C10Gen", ["C10"])], level_text="C10.unquoted_class_is_source / number_class_is_source_* / space_class_is_source / quote_class_is_source: the character classes of the model are exactly the tables obtained on every run by calling the private predicates of the compiled JsonDeserializer for all 256 bytes in three configurations (translator tie). Theorems C10.accepts_iff / ok_iff_dialect: for every configuration (comments, NaN, Infinity, unicode decoding on or off), nesting limit and byte string, the deserializer model "
+P("C10", module="AJ.Props.C10All", extra=[("AJ.Props.C10Gen2", ["C10"]), ("AJ.Props.C10", ["C10"]), ("AJ.Props.C10Class", ["C10"]), ("AJ.Props.C01Doc", ["C10"]), ("AJ.Props.C10Gen", ["C10"])], level_text="C10.json_first_byte_is_source_*: on each of the 256 first bytes followed by three fixed tails, in the default build and with comments/NaN/Infinity enabled, the model's code, consumption and serialized document are those obtained on every run by calling the compiled deserializeJson/serializeJson (translator tie, kernel evaluation of 1536 runs). C10.unquoted_class_is_source / number_class_is_source_* / space_class_is_source / quote_class_is_source: the character classes of the model are exactly the tables obtained on every run by calling the private predicates of the compiled JsonDeserializer for all 256 bytes in three configurations (translator tie). Theorems C10.accepts_iff / ok_iff_dialect: for every configuration (comments, NaN, Infinity, unicode decoding on or off), nesting limit and byte string, the deserializer model "
   "returns Ok with value v exactly when the text is `white space/comments, one value of the documented dialect denoting v, then anything` (declarative grammar lean/AJ/Spec/Dialect.lean: single and double "
   "quotes, unquoted keys, lenient numbers, NaN/Infinity when enabled, comments when enabled, raw control bytes in strings); C10.sound and C10.complete are the two directions; "
   "C10.unclosed_refused / unclosed_never_ok: an unclosed string, array or object is never Ok; C10.empty_iff: EmptyInput exactly for inputs that are only white space/comments; C10.disabled_*: the "
